@@ -738,13 +738,23 @@ func ruleC07Complement(c *Ctx) {
 				// the index starts at endIndex: the index argument of instance.Index(i) is a phi with an edge loading anns.endIndex
 				okStart := false
 				if call, ok := s.Inst.(*ssa.Call); ok && core.CalleeKey(&call.Call) == "reflect.Value.Index" && len(call.Call.Args) == 2 {
+					// every initial value of the index is the merged endIndex (the increment of the loop variable aside)
+					nEnd, nOther := 0, 0
 					for _, e := range traceSources(call.Call.Args[1]) {
 						if ld, ok := e.(*ssa.UnOp); ok {
 							if fa, ok := ld.X.(*ssa.FieldAddr); ok && m.isFrameAnns(fa) && core.CanonFieldOf(fa.X.Type(), fa.Field) == "endIndex" {
-								okStart = true
+								nEnd++
+								continue
 							}
 						}
+						if bo, ok := e.(*ssa.BinOp); ok && bo.Op == token.ADD {
+							if _, isPhi := bo.X.(*ssa.Phi); isPhi {
+								continue // i++
+							}
+						}
+						nOther++
 					}
+					okStart = nEnd > 0 && nOther == 0
 				}
 				c.R.Check(okStart, rule, src+":from-endIndex", pos, "the scan starts at the merged endIndex (items below it were evaluated by prefixItems/items)",
 					"the index of the items handed to unevaluatedItems does not start at annotations.endIndex")
